@@ -464,3 +464,62 @@ Proof.
   intros q real var. unfold sim_rotate. split; [apply map_app|]. split; [rewrite map_length, app_length; reflexivity|].
   split; [intros i d; apply map_nth | intros; apply rotate_linear].
 Qed.
+
+(* ---------------- corners excluded by the hypotheses above: what the code does there (over R; binary64 differences noted) *)
+(* a quaternion that is not unit (the constructor Rotation(ix,iy,iz,r) accepts anything) is NOT applied as q v q*: *)
+Theorem rotate_nonunit : forall q v, Rrot v q = v_add RNum (sand q v) (v_mul RNum v (1 - Rqlsq q)).
+Proof. exact rotate_sand. Qed.
+(* ... in particular the zero quaternion acts as the identity (binary64: the same; its inverse() and normalize() are NaN) *)
+Theorem rotate_zero_quaternion : forall v, Rrot v (mkQ 0 0 0 0) = v.
+Proof. intros [a b c]. apply vec_eq; unf; ring. Qed.
+(* angles 0 and 2 pi give +-identity, which rotate nothing; angle pi is the reflection through the axis: v -> 2 (a.v) a - v *)
+Theorem angle_axis_special : forall axis v, 0 < Rlsq axis -> let a := v_normalize RNum axis in
+  Rrot v (angle_axis RNum 1 0 axis) = v /\ Rrot v (angle_axis RNum (-1) 0 axis) = v /\
+  Rrot v (angle_axis RNum 0 1 axis) = v_add RNum (v_mul RNum a (2 * Rdot a v)) (v_mul RNum v (-1)).
+Proof.
+  intros axis v Ha a. pose proof (normalize_unit axis Ha) as Hn. unfold angle_axis. fold a in Hn |- *. clearbody a. clear Ha axis.
+  destruct a as [a1 a2 a3]. destruct v as [x y z]. revert Hn. unf. intro Hn.
+  split; [apply vec_eq; unf; ring|]. split; [apply vec_eq; unf; ring|]. apply vec_eq; unf; nsatz.
+Qed.
+(* init_to_new_axes when newx is parallel to newz (or zero): the orthogonalised newx vanishes, atan2(0,0) = 0, so (c2,s2) = (1,0) and the
+   result is the first stage alone: still a unit quaternion taking newz_hat to z (the x axis is then not determined by the input) *)
+Theorem to_new_axes_parallel : forall thr (newz newx : vecR), 0 <= thr -> 0 < Rlsq newz ->
+  let f := v_normalize RNum newz in
+  (0 <= Rdot f ez \/ thr < Rlsq (v_add RNum f ez) \/ f = v_mul RNum ez (-1)) ->
+  let q := to_new_axes RNum isnormR thr 1 0 newz newx in
+  Rqlsq q = 1 /\ Rrot f q = ez /\ q = snd (to_new_axes_x' RNum isnormR thr newz newx).
+Proof.
+  intros thr newz newx Hthr Hz f Hgen q.
+  pose proof (normalize_unit newz Hz) as Hf. fold f in Hf.
+  assert (Hf0 : 0 < Rlsq f) by lra. assert (He0 : 0 < Rlsq ez) by (rewrite lsq_ez; lra).
+  assert (S : Rqlsq (from_to RNum isnormR thr f ez) = 1 /\ Rrot f (from_to RNum isnormR thr f ez) = ez).
+  { pose proof (from_to_spec thr f ez Hthr Hf0 He0) as S. cbv zeta in S.
+    rewrite (normalize_unit_id f Hf), (normalize_unit_id ez lsq_ez) in S. destruct S as (U1 & M1 & _).
+    split; [exact U1|]. destruct Hgen as [H|[H|H]]; [apply M1; left; exact H | apply M1; right; exact H|].
+    assert (Eez : ez = v_mul RNum f (- (1))) by (rewrite H; apply vec_eq; unfold ez; unf; ring).
+    pose proof (from_to_antiparallel thr f 1 Hthr Hf0 Rlt_0_1) as A. cbv zeta in A. rewrite <- Eez in A.
+    rewrite (normalize_unit_id f Hf), (normalize_unit_id ez lsq_ez) in A. destruct A as (_ & A & _). exact A. }
+  destruct S as [U1 M1].
+  assert (Eq : q = from_to RNum isnormR thr f ez).
+  { subst q. unfold to_new_axes. change (mkV (nzero RNum) (nzero RNum) (none RNum)) with ez. rewrite angle_axis_z.
+    change (snd (to_new_axes_x' RNum isnormR thr newz newx)) with (from_to RNum isnormR thr f ez).
+    destruct (from_to RNum isnormR thr f ez) as [a b c d]. apply quat_eq; unf; ring. }
+  rewrite Eq. split; [exact U1|]. split; [exact M1 | reflexivity].
+Qed.
+(* slerp outside the default branch: |q1.q2| >= 1 returns q1; in the small-angle branch a negative dot product returns q1 (439d558),
+   a non-negative one the mean of the two quaternions *)
+Theorem slerp_corners : forall eps sA sB (q1 q2 : quatR),
+  let c := slerp_cos RNum q1 q2 in let s := sqrt (1 - c * c) in
+  (1 <= Rabs c -> slerp RNum eps sA sB q1 q2 = q1) /\
+  (Rabs c < 1 -> Rabs s < eps -> c < 0 -> slerp RNum eps sA sB q1 q2 = q1) /\
+  (Rabs c < 1 -> Rabs s < eps -> 0 <= c ->
+     slerp RNum eps sA sB q1 q2 = mkQ (qix q1 * (1 / 2) + qix q2 * (1 / 2)) (qiy q1 * (1 / 2) + qiy q2 * (1 / 2))
+                                      (qiz q1 * (1 / 2) + qiz q2 * (1 / 2)) (qr q1 * (1 / 2) + qr q2 * (1 / 2))).
+Proof.
+  intros eps sA sB q1 q2 c s. unfold slerp. fold c. cbn [nleb nltb nabs nsqrt nsub nmul ndiv none nzero nofZ two RNum]. fold s.
+  unfold Rleb, Rltb. split; [|split].
+  - intro H. destruct (Rle_dec 1 (Rabs c)); [reflexivity | lra].
+  - intros H1 H2 H3. destruct (Rle_dec 1 (Rabs c)); [lra|]. destruct (Rlt_dec (Rabs s) eps); [|lra]. destruct (Rlt_dec c 0); [reflexivity | lra].
+  - intros H1 H2 H3. destruct (Rle_dec 1 (Rabs c)); [lra|]. destruct (Rlt_dec (Rabs s) eps); [|lra]. destruct (Rlt_dec c 0); [lra|].
+    unfold two. cbn [nofZ RNum]. reflexivity.
+Qed.
